@@ -28,7 +28,7 @@ def potential_cases(strength):
     if strength == "thorough":
         cases += [
             ("tet", ("DP", 0, {"segments": [0, 2]}), "scalar", None, pts),
-            ("tet", ("B-P", 1, {}), "scalar", None, pts[:2]),
+            ("tet", ("P-bary", 1, {}), "scalar", None, pts[:2]),
             ("fan4", ("P", 1, {"include_boundary_dofs": True, "segments": [1], "truncate_at_segment_edge": False}),
              "scalar", None, pts[:3]),
             ("strip3", ("DP", 1, {"segments": [1]}), "scalar", 1.0, pts[:3]),
